@@ -21,6 +21,21 @@ import vlib
 
 LEVEL = "model_checking"
 
+MANIFEST = dict(
+    category="model_checking",
+    technique="TLA+ spec of the Gorilla codec case analysis (TLC exhaustive) + replay of every TLC-enumerated class sequence on the real codec and through OpenTSDB ingest/selector query across rotation and restart",
+    text=("spec/Gorilla.tla transcribes the encoder/decoder case analysis (delta-of-delta classes, XOR window reuse/new window, "
+          "field widths); TLC checks BitExact/InSync/Geometry over all class sequences up to MaxLen. Every enumerated sequence "
+          "is concretised against the real encoder state and run through the real compress package (round trip after each step "
+          "+ spec-predicted stream length), and a seeded sample goes end to end: OpenTSDB ingest, selector query while open, "
+          "after block flush, size-driven segment rotation, shutdown rotation and restart, with colliding tag sets."),
+    note=("Classes are (dod class, leading/trailing zero geometry); middle bits random per VERIF_SEED, not all 2^64 values. "
+          "32-bit dod arithmetic modelled with unbounded integers. e2e uses finite values (JSON cannot carry NaN/Inf); several "
+          "datapoints in the same second are not compared. Prometheus remote-write / OTLP metric ingest paths are covered by C16."),
+    design_ref="DESIGN.md 4/C08",
+)
+
+
 T0 = 1_700_000_000
 
 
@@ -179,6 +194,8 @@ def e2e_case(binary, case):
         dr.ok("init", dir=d, wait_ms=400)
         check("restarted")
     except vlib.DriverDead as e:
+        if e.kind == "hang":
+            raise vlib.Infra("engine did not answer in time (machine load?): %s" % e)
         fails.append(("driver-died", str(e)))
     finally:
         if dr is not None:
